@@ -39,9 +39,10 @@ class RefModel:
             self.waiters[d].discard(key)
 
     def must_hold(self):
+        # keys outside the needed set (e.g. entries a caller pre-seeded into cache=) constrain nothing
         return {k for k in self.available
-                if k in self.requested or self.waiters[k]}
+                if k in self.requested or self.waiters.get(k)}
 
     def may_release(self):
         return {k for k in self.available
-                if k not in self.requested and not self.waiters[k]}
+                if k not in self.requested and not self.waiters.get(k)}
